@@ -13,7 +13,16 @@ import (
 
 func init() {
 	Registry["C02"] = runC02
-	perProgram["C02"] = func(r *explore.Run, p *prog) { c02Program(r, p, 1, nil) }
+	perProgram["C02"] = func(r *explore.Run, p *prog) {
+		if strings.HasPrefix(p.Sig, c02HistSigPrefix) {
+			c02HistoryReplay(r, p.Sig)
+			return
+		}
+		c02Program(r, p, 1, nil)
+		if c02WantsExtra(p) {
+			c02ProgramConfigs(r, p, c02ExtraConfigs(false), nil)
+		}
+	}
 }
 
 type ruleStats struct {
@@ -23,13 +32,18 @@ type ruleStats struct {
 }
 
 func c02Program(r *explore.Run, p *prog, d int, rs *ruleStats) {
+	c02ProgramConfigs(r, p, nagax.SPIRVConfigs(d), rs)
+}
+
+// c02ProgramConfigs validates the SPIR-V of one program under the given option sets.
+func c02ProgramConfigs(r *explore.Run, p *prog, configs []nagax.SPIRVConfig, rs *ruleStats) {
 	m, _, err, pn := nagax.Front(p.Src)
 	if pn != nil || err != nil {
 		r.Skip("front end rejected/panicked (belongs to C08/C10)")
 		return
 	}
 	sc := sigClass(p.Sig)
-	for _, c := range nagax.SPIRVConfigs(d) {
+	for _, c := range configs {
 		b, err, pn := nagax.SPIRV(m, c.Opts)
 		if pn != nil {
 			r.Skip("naga panic (belongs to C10)")
@@ -83,6 +97,7 @@ func runC02() int {
 		}
 		c02Program(r, p, d, rs)
 	})
+	c02Extra(r, rs, texts)
 	var unex []string
 	for _, rule := range spvval.Rules() {
 		if rs.fired[rule] == 0 {
@@ -95,6 +110,6 @@ func runC02() int {
 	r.Extra("distinct_opcodes_seen", len(rs.ops))
 	r.Sample(map[string]any{"program": "micro/" + wgen.Micros[3].Name, "configs": "spirv.Options within 1 deviation of the default: versions 1.0-1.6, debug, loop bounding off, point size, coordinate adjustment, io16 off"})
 	printKeys(r)
-	return r.Finish("every SPIR-V binary produced for F1, F2 (node budget per tier), the feature micro-programs and the 172 corpus shaders under every option set within 1 deviation of the default (F2: default only in the quick tier) is checked by an independent structural validator (95 rules: header, layout order, ids/dominance, type uniqueness, per-opcode typing, block shape, structured control flow, entry-point interfaces, Vulkan layout decorations, capabilities); evaluations = binaries validated; distinct = distinct default-option binaries",
+	return r.Finish("every SPIR-V binary produced for F1, F2 (node budget per tier), the feature micro-programs and the 172 corpus shaders under every option set within 1 deviation of the default (F2: default only in the quick tier) is checked by an independent structural validator (95+ rules: header, layout order, ids/dominance, type uniqueness, per-opcode typing, block shape, structured control flow, entry-point interfaces, Vulkan layout decorations, capabilities); evaluations = binaries validated; distinct = distinct default-option binaries. "+c02ExtraRule,
 		[]string{"the validator (internal/spvval) is the trusted base; rules whose basis in the SPIR-V/Vulkan specifications was uncertain were left out (listed in DESIGN.md)"})
 }
